@@ -25,7 +25,8 @@ META = {
         "is the negated membership test."),
     "decided": ["C12.a store/mark pairing by route", "C12.b no mark without a store", "C12.c unmark never before an escaping raise",
                 "C12.d constructor routing", "C12.e every value-holding __setdefault__ stores its own key through _set_default_value",
-                "C12.f callable defaults evaluated per access, _default read nowhere else", "C12.g reset_value / is_value_defined glue"],
+                "C12.f callable defaults evaluated per access, _default read nowhere else", "C12.g reset_value / is_value_defined glue",
+                "C12.h per-configuration copies of list/dict defaults (shared with C13.2); every loaded key reaches _set_value (shared with C01.3)"],
     "not_decided": ["value equality of 'default restored' where the default is hashed or wrapped"],
 }
 
@@ -78,6 +79,14 @@ def check(ctx):
     an, model = ctx.an, ctx.model
     state = an.summary(STATE)
     Config = model.cls("Config")
+    # shared clauses: "a freshly built configuration exposes its declared default" needs per-configuration copies of
+    # list/dict defaults (C13.2); "user-defined exactly when a value is loaded" needs every loaded key to reach
+    # _set_value (C01.3)
+    from . import c01, c13
+    sub = type(ctx)(ctx.pid, ctx.an, ctx.tier)
+    c01.check_load_tree(sub)
+    c13.check_fresh_defaults(sub)
+    ctx.obligations.extend(sub.obligations)
 
     # ---------------------------------------------------------------- (a)+(b)
     nstores = 0
